@@ -63,11 +63,18 @@ ASSUMPTIONS = [
     "left and right normal forms are each canonical; they need not coincide"]
 
 _KIT = None
+_OTHER_KITS = None
 
 
 def setup(ctx):
-    global _KIT
+    global _KIT, _OTHER_KITS
     _KIT = kits.MonoidalKit()
+    # the other diagram classes share the rewriting code but not their boxes
+    # (hashing, equality, upgrade): circuits and rigid diagrams.  Tensor
+    # diagrams are left out: their box equality raises on arrays of unequal
+    # shape and their types degrade to rigid.Ty, which is C03's / C08's business
+    _OTHER_KITS = [kits.CircuitKit(), kits.RigidKit(structural=False),
+                   kits.CircuitKit(pure=True)]
 
 
 # -- generators ------------------------------------------------------------------
@@ -328,6 +335,10 @@ def run_case(rng, ctx):
             else comb(rng, kit, rng.randint(2, 5))
     elif kind == 9:        # disconnected control
         d = kit.rand_diagram(rng, rng.randint(2, 6), width=rng.randint(0, 3))
+    elif kind == 5:        # another diagram class (connected or not)
+        other = _OTHER_KITS[(ctx.index // 10 + ctx.shard) % len(_OTHER_KITS)]
+        d = other.rand_diagram(rng, rng.randint(2, 6), width=rng.randint(1, 3))
+        ctx.count("inputs_of_class:" + other.name)
     elif kind == 7:        # disconnected: a connected piece next to scalars/states
         d = rand_connected(rng, kit, rng.randint(1, 4), rng.randint(0, 2))
         for _ in range(rng.randint(1, 3)):
